@@ -326,6 +326,10 @@ func corrGoJSON(ctx *Ctx, n int) error {
 		}
 		// the other direction (Proofs/GoJsonEnc.lean, enc_dec): the decoded Go value, marshalled and unmarshalled again, is
 		// the same value exactly when the model calls it stable (no pointer to nil, no empty non-nil slice or map under omitempty)
+		if mres.Valid && !(mres.Typed && mres.Stable) {
+			// decode_typed_stable: a valid instance decodes to a typed, stable value (the executable model against its theorem)
+			ctx.Res.Disagree("CORR GoJson: a valid instance whose decoded value the model does not call typed and stable (contradicts decode_typed_stable)", cs, "typed and stable", fmt.Sprintf("typed=%v stable=%v", mres.Typed, mres.Stable))
+		}
 		if mres.Typed {
 			again := reflect.New(t.reflectType())
 			same := json.Unmarshal([]byte(implOut), again.Interface()) == nil && reflect.DeepEqual(dst.Elem().Interface(), again.Elem().Interface())
